@@ -5,6 +5,7 @@ from .. import core, rec_solver
 from ..trace import TraceWriter
 
 ASSUMPTIONS = [
+    'TLAPS (tla/proofs/FluxSolverProofs.tla, checked by tlapm on every run): for EVERY input, arithmetic (uninterpreted, Eq reflexive) and permeate-pressure map the machine of FluxSolverCore.tla returns only after a change below the requested precision, and the returned fluxes are the solution-diffusion law at the composition it stopped at',
     "leg A: exact rationals with vacuum / pressure / ideal-permeate (affine) permeate sides; IEEE arithmetic over the reference thermodynamics on near-equilibrium scenarios of the code's own mixtures",
     "leg B: every evaluation of the driving force observed through a harness-side wrapper of the public method get_partial_fluxes_from_permeate_composition; feed/permeate partial pressures are oracle values of the public get_partial_pressures",
     "self-consistency is asserted when the local contraction factor measured with two extra public calls is < 0.9",
@@ -74,6 +75,7 @@ def run(ctx, pool):
     # (fluxes at their own composition, CPU-time guard), with the clauses on single evaluations not exercised
     res["coverage"]["iterations_observable"] = hist.get("Eval", 0) > 0
     res["trace_lookup"] = lambda v: tw.traces[v["record"]["t"]][:80]
+    core.attach_tlaps(ctx, res, [('FluxSolverProofs.tla', ['FluxSolverCore.tla'])])
     return res
 
 
